@@ -616,6 +616,7 @@ def execute(env: Env, r: Run, tag: str, token: str, kind: str = "unrelated") -> 
         if r.detach:
             o.daemon_pid = lineage[-1] if len(lineage) > 1 else None  # type: ignore[attr-defined]
     o.root_cfg = root  # type: ignore[attr-defined]
+    o.root_as_configured = over.get("root") or root  # type: ignore[attr-defined]
     o.port = sp.port   # type: ignore[attr-defined]
     o.wall = time.monotonic() - t0
     return o
@@ -700,7 +701,7 @@ def judge(env: Env, r: Run, o: Obs, token: str) -> typing.Tuple[
                 add("C19/cwd-outside-root", **detail)
         # (4) the root the server believes in, and the one it serves
         m = re.search(r"^Running\.  Root is '(.*)'$", o.stdout, re.M)
-        exp_line = "/" if r.chroot else root
+        exp_line = "/" if r.chroot else getattr(o, "root_as_configured", root)
         if not m or m.group(1) != exp_line:
             add("C19/root-not-rewritten", expected=exp_line, observed=m.group(1) if m else None)
         if o.client_errors:
@@ -882,6 +883,7 @@ def execute_inproc(env: Env, r: Run, tag: str, token: str) -> Obs:
     outpath = os.path.join(wd, "inproc.json")
     envv = dict(os.environ, PYTHONPATH=REPO, PYTHONDONTWRITEBYTECODE="1")
     o.root_cfg = root  # type: ignore[attr-defined]
+    o.root_as_configured = root  # type: ignore[attr-defined]
     o.port = port      # type: ignore[attr-defined]
     try:
         p = subprocess.run([spdriver.PYTHON, "-c", INPROC_CHILD, conf, r.fault or "-", outpath],
@@ -982,6 +984,9 @@ def main() -> int:
             kinds = ["unrelated"]
             if mode == "strace" and r.chroot and r.fault is None:
                 kinds = ["prefix-sibling", "inside-root", "root-itself", "relative-root", "relative-dot", "unrelated"]
+            elif mode == "strace" and r.fault is None and not r.chroot:
+                # without a chroot a relative root keeps meaning "below the directory the daemon was started from"
+                kinds = ["relative-root", "unrelated"]
             for k in kinds[:-1]:
                 o = execute(env, r, "run%03d-%s" % (i, k), token, kind=k)
                 wit, inc = judge(env, r, o, token)
